@@ -56,7 +56,7 @@ def _candidate(fn, cls):
     if any(d != "staticmethod" for d in decos):
         return False
     a = fn.args
-    if a.vararg or a.kwarg or a.posonlyargs:
+    if a.posonlyargs:
         return False
     n_stmts = 0
     for n in _own(fn):
@@ -117,7 +117,10 @@ class _Subst(ast.NodeTransformer):
             new = copy.deepcopy(self.mapping[node.id])
             if isinstance(new, ast.Name):
                 new.ctx = node.ctx
-            return ast.copy_location(new, node) if not hasattr(new, "lineno") else new
+            if not hasattr(new, "lineno"):
+                ast.copy_location(new, node)
+                ast.fix_missing_locations(new)
+            return new
         return node
 
 
@@ -137,14 +140,26 @@ def _expand(call, fn, is_method, kind, targets, counter):
     if is_method:
         bind["self"] = call.func.value
     npos = len(a.args) - (1 if is_method else 0)
-    if len(call.args) > npos:
+    if len(call.args) > npos and not a.vararg:
         raise NotInlinable("too many positional arguments")
     for p, v in zip(pos, call.args):
         bind[p] = v
+    extra_kw = []
     for k in call.keywords:
-        if k.arg not in pos or k.arg in bind:
-            raise NotInlinable("unknown / duplicate keyword")
+        if k.arg in bind:
+            raise NotInlinable("duplicate keyword")
+        if k.arg not in pos:
+            if not a.kwarg:
+                raise NotInlinable("unknown keyword")
+            extra_kw.append(k)
+            continue
         bind[k.arg] = k.value
+    if a.vararg:
+        # the surplus positional arguments, as a tuple display
+        bind[a.vararg.arg] = ast.Tuple(elts=list(call.args[npos:]), ctx=ast.Load())
+    if a.kwarg:
+        # the surplus keyword arguments, as a dict display (f(**{"k": v}) reads as f(k=v))
+        bind[a.kwarg.arg] = ast.Dict(keys=[ast.Constant(value=k.arg) for k in extra_kw], values=[k.value for k in extra_kw])
     for p in pos:
         if p not in bind:
             if p not in defaults:
@@ -162,7 +177,10 @@ def _expand(call, fn, is_method, kind, targets, counter):
         return isinstance(e, (ast.Name, ast.Constant)) or (isinstance(e, ast.Attribute) and simple(e.value))
 
     for p, v in bind.items():
-        if simple(v) and p not in stored:
+        if isinstance(v, (ast.Dict, ast.Tuple)) and p in ((a.kwarg.arg if a.kwarg else None), (a.vararg.arg if a.vararg else None)) and p not in stored \
+                and all(simple(x) for x in (v.values if isinstance(v, ast.Dict) else v.elts)):
+            mapping[p] = v
+        elif simple(v) and p not in stored:
             mapping[p] = v
         else:
             tmp = ast.Name(id=tag + p, ctx=ast.Store())
